@@ -581,9 +581,205 @@ fn run_scenario(seed: u64, prof: &Profile, out: &mut Vec<String>, rep: &mut Repo
     out.extend(lines);
 }
 
+/// C05 stress lane: a multi-thread runtime, many cloned handles on many tasks issuing short operations against an
+/// auto-answering server, the ID counter placed next to 2^31-1 with phantom IDs in use. Only allocator events are
+/// recorded; their sequence numbers are taken under the msgmap lock, so their order is the lock order.
+fn run_stress(seed: u64, threads: usize, tasks: usize, ops: usize, out: &mut Vec<String>, rep: &mut Report) {
+    let rt = Builder::new_multi_thread().worker_threads(threads).enable_time().build().unwrap();
+    ldap3::verif::install();
+    let mut rng = StdRng::seed_from_u64(seed);
+    let last = i32::MAX - rng.gen_range(0..200);
+    let mut used: Vec<i32> = vec![];
+    for _ in 0..rng.gen_range(0..60) {
+        let id = if rng.gen_bool(0.5) { rng.gen_range(1..120) } else { i32::MAX - rng.gen_range(0..250) };
+        if id != last && !used.contains(&id) {
+            used.push(id);
+        }
+    }
+    used.sort_unstable();
+    let dup = std::sync::Arc::new(std::sync::atomic::AtomicU64::new(0));
+    let range = std::sync::Arc::new(std::sync::atomic::AtomicU64::new(0));
+    let total = std::sync::Arc::new(std::sync::atomic::AtomicU64::new(0));
+    let (dup2, range2, total2) = (dup.clone(), range.clone(), total.clone());
+    let used2 = used.clone();
+    rt.block_on(async move {
+        let io = MockIo::new();
+        let (conn, ldap) = LdapConnAsync::verif_from_io(Box::new(io.clone()));
+        ldap.verif_set_msgmap(last, &used2);
+        ldap3::verif::log(&format!("\"ev\":\"SetMap\",\"last\":{},\"used\":{:?}", last, used2));
+        let drv = tokio::spawn(async move {
+            let _ = conn.drive().await;
+        });
+        let stop = std::sync::Arc::new(std::sync::atomic::AtomicBool::new(false));
+        let stop2 = stop.clone();
+        let io2 = io.clone();
+        // the server: answers every request; holds a few back so that many are in flight at once
+        let server = tokio::spawn(async move {
+            let mut buf: Vec<u8> = vec![];
+            let mut inflight: Vec<i64> = vec![];
+            let mut srng = StdRng::seed_from_u64(seed ^ 77);
+            let mut idle = 0;
+            loop {
+                buf.extend(io2.take_written());
+                let (msgs, rest) = ber::split_messages(&buf);
+                buf = rest;
+                let got = !msgs.is_empty();
+                for (el, _raw) in msgs {
+                    if el.kids.len() < 2 {
+                        continue;
+                    }
+                    let id = ber::uint_of(&el.kids[0].val);
+                    total2.fetch_add(1, std::sync::atomic::Ordering::Relaxed);
+                    if !(1..=i32::MAX as i64).contains(&id) {
+                        range2.fetch_add(1, std::sync::atomic::Ordering::Relaxed);
+                    }
+                    if inflight.contains(&id) {
+                        dup2.fetch_add(1, std::sync::atomic::Ordering::Relaxed);
+                    }
+                    if matches!(el.kids[1].num, 0 | 10 | 14) {
+                        inflight.push(id);
+                    }
+                }
+                idle = if got { 0 } else { idle + 1 };
+                while !inflight.is_empty() && (inflight.len() > 12 || idle > 3) {
+                    let i = srng.gen_range(0..inflight.len());
+                    let id = inflight.swap_remove(i);
+                    io2.push_bytes(&ber::message(id, ber::ldap_result(1, 0, b"", b"ok", &[]), None));
+                }
+                if stop2.load(std::sync::atomic::Ordering::Relaxed) && inflight.is_empty() {
+                    break;
+                }
+                tokio::task::yield_now().await;
+            }
+        });
+        let mut hs = vec![];
+        for t in 0..tasks {
+            let mut l = ldap.clone();
+            hs.push(tokio::spawn(async move {
+                for k in 0..ops {
+                    if (t + k) % 7 == 3 {
+                        // hold two IDs at once from one task: a search start and a bind racing on two clones
+                        let mut l2 = l.clone();
+                        let (a, b) = tokio::join!(l.simple_bind("", ""), l2.simple_bind("", ""));
+                        let _ = (a, b);
+                    } else {
+                        let _ = l.simple_bind("", "").await;
+                    }
+                }
+            }));
+        }
+        for h in hs {
+            let _ = h.await;
+        }
+        stop.store(true, std::sync::atomic::Ordering::Relaxed);
+        let _ = server.await;
+        drop(ldap);
+        io.push(Item::Eof);
+        let _ = drv.await;
+    });
+    let lines = ldap3::verif::take();
+    let n_alloc = lines.iter().filter(|l| l.contains("\"IdAlloc\"")).count() as u64;
+    rep.evaluations += n_alloc;
+    rep.nontrivial.insert(hash_of(&(seed, n_alloc)));
+    rep.nontrivial.insert(hash_of(&(seed, 1u8)));
+    rep.add("allocations", n_alloc);
+    rep.add("requests_seen_by_server", total.load(std::sync::atomic::Ordering::Relaxed));
+    let d = dup.load(std::sync::atomic::Ordering::Relaxed);
+    let r = range.load(std::sync::atomic::Ordering::Relaxed);
+    if d > 0 {
+        rep.mismatch("wire:duplicate-id-among-unanswered", json!({"seed": seed, "count": d}));
+    }
+    if r > 0 {
+        rep.mismatch("wire:id-out-of-range", json!({"seed": seed, "count": r}));
+    }
+    if rep.samples.is_empty() {
+        rep.sample(json!({"seed": seed, "last": last, "phantom_in_use": used, "events": lines.iter().take(8).collect::<Vec<_>>()}));
+    }
+    out.push(format!("{{\"seq\":0,\"ev\":\"Reset\",\"seed\":{}}}", seed));
+    out.extend(lines.into_iter().filter(|l| l.contains("\"IdAlloc\"") || l.contains("\"IdRelease\"") || l.contains("\"SetMap\"")));
+}
+
+/// C05 S -> I: allocator vectors from MCMsgId mapped next to the real wrap point.
+fn run_alloc_vectors(path: &str, rep: &mut Report) {
+    let rt = Builder::new_current_thread().build().unwrap();
+    let _g = rt.enter();
+    let io = MockIo::new();
+    let (_conn, mut ldap) = LdapConnAsync::verif_from_io(Box::new(io));
+    verif_harness::tlcout::for_each_tagged(path, "VEC", |v| {
+        let maxid = v["maxid"].as_i64().unwrap();
+        // Model ID m -> real ID. The small cyclic space is cut open right after the expected ID: everything up to it keeps
+        // its value (bottom of the real space), everything above it sits at the top of the real space, so the probe walk
+        // from `last` to the expected ID never crosses the cut and wraps from 2^31-1 to 1 exactly where the model wraps.
+        let next = v["next"].as_i64().unwrap();
+        if next == v["last"].as_i64().unwrap() {
+            // every other ID is taken: the walk goes once around the whole circle, which no cut can avoid
+            // (2^31-2 IDs in use is out of reach of any real run); counted, not replayed
+            rep.count("skipped_full_circle");
+            return;
+        }
+        let map = |m: i64| -> i32 {
+            if m <= next {
+                m as i32
+            } else {
+                (i32::MAX as i64 - (maxid - m)) as i32
+            }
+        };
+        let last = map(v["last"].as_i64().unwrap());
+        let used: Vec<i32> = v["used"].as_array().unwrap().iter().map(|x| map(x.as_i64().unwrap())).collect();
+        let expect = map(v["next"].as_i64().unwrap());
+        ldap.verif_set_msgmap(last, &used);
+        let l2 = &mut ldap;
+        let got = verif_harness::catch(std::panic::AssertUnwindSafe(|| l2.verif_next_msgid()));
+        rep.eval(!used.is_empty(), hash_of(&(last, &used)));
+        if rep.samples.len() < 3 && used.len() >= 2 {
+            rep.sample(json!({"last": last, "used": used, "expected_next": expect}));
+        }
+        match got {
+            Ok(id) if id == expect => {
+                let (l, u) = ldap.verif_msgmap();
+                let mut want = used.clone();
+                want.push(expect);
+                want.sort_unstable();
+                if l != expect || u != want {
+                    rep.mismatch("alloc:post-state", json!({"last": last, "used": used, "got_last": l, "got_used": u}));
+                }
+            }
+            Ok(id) => rep.mismatch(
+                if used.contains(&id) { "alloc:returned-id-in-use" } else if !(1..=i32::MAX).contains(&id) { "alloc:out-of-range" } else { "alloc:wrong-id" },
+                json!({"last": last, "used": used, "expected": expect, "got": id}),
+            ),
+            Err(p) => rep.mismatch("alloc:panic", json!({"last": last, "used": used, "panic": p})),
+        }
+    })
+    .expect("read vectors");
+}
+
 fn main() {
     verif_harness::silence_panics();
     let a: Vec<String> = std::env::args().collect();
+    if a.len() >= 8 && a[1] == "stress" {
+        // conn-run stress <out> <first-seed> <runs> <threads> <tasks> <ops> <report>
+        let first: u64 = a[3].parse().unwrap();
+        let runs: u64 = a[4].parse().unwrap();
+        let mut rep = Report::new("conn-stress");
+        let mut out = vec![];
+        for s in first..first + runs {
+            run_stress(s, a[5].parse().unwrap(), a[6].parse().unwrap(), a[7].parse().unwrap(), &mut out, &mut rep);
+        }
+        let mut f = std::io::BufWriter::new(std::fs::File::create(&a[2]).unwrap());
+        for l in &out {
+            writeln!(f, "{}", l).unwrap();
+        }
+        f.flush().unwrap();
+        rep.write(&a[8]);
+        return;
+    }
+    if a.len() >= 4 && a[1] == "alloc" {
+        let mut rep = Report::new("conn-alloc-vectors");
+        run_alloc_vectors(&a[2], &mut rep);
+        rep.write(&a[3]);
+        return;
+    }
     if a.len() < 7 || a[1] != "random" {
         eprintln!("usage: conn-run random <out.ndjson> <first-seed> <count> <profile> <report.json>");
         std::process::exit(2);
